@@ -1,5 +1,5 @@
 import itertools
-from typing import Any, Optional, Tuple
+from typing import Any, Iterable, Optional, Tuple
 
 from pdfminer.utils import Matrix, Rect
 
@@ -53,6 +53,10 @@ def safe_cmyk(
 
 
 def safe_rect_list(value: Any) -> Optional[Rect]:
+    if not isinstance(value, Iterable):
+        # This also rejects a PDFStream, which is subscriptable by name only.
+        return None
+
     try:
         values = list(itertools.islice(value, 4))
     except TypeError:
